@@ -10,7 +10,7 @@ from rules.util import P, strip, show_b
 EXPLANATION = __doc__
 TRUSTED = ["rustc / extractor", "stream induction lemma (as C07)", "HMAC-SHA1 implementation (hmac, sha1 crates)"]
 NOT_DECIDED = ["HMAC / SHA-1 internals"]
-FLOORS = {"step": 10, "traversal": 2, "state-discipline": 2, "state-writers": 4, "initial-state": 4, "wiring": 2, "key-derivation": 3}
+FLOORS = {"entry-points": 24, "step": 10, "traversal": 2, "state-discipline": 2, "state-writers": 4, "initial-state": 4, "wiring": 2, "key-derivation": 3}
 MOD = "tbc_header"
 KEYLEN = 20
 TBC_SEED = bytes.fromhex("38A78315F8922530719867B18C04E2AA")  # spec/constants.toml [tbc] hmac_seed
@@ -21,6 +21,12 @@ def applicable(feats):
 
 
 def check(ctx, rep):
+    # "the receiver recovers the sender's headers": every entry point of this expansion that
+    # feeds bytes to the cipher (typed helpers, Read/Write wrappers, facade) must hand the raw
+    # operation exactly the bytes of the header, once - the obligations C11 decides, filed here
+    # for this expansion's functions
+    from rules import c11
+    c11.check(ctx, util.Refile(rep, "entry-points", None, lambda fn: fn.startswith("tbc_header::")))
     enc_fn = MOD + "::encrypt::encrypt"
     dec_fn = MOD + "::decrypt::decrypt"
     eh = MOD + "::encrypt::EncrypterHalf"
